@@ -15,6 +15,7 @@ import GMGDriver.OwnerDrv
 import GMGDriver.SmCodeDrv
 import GMGDriver.CacheDrv
 import GMGDriver.SetupDrv
+import GMGDriver.ExSmCodeDrv
 
 def main (args : List String) : IO UInt32 := do
   match args with
@@ -37,6 +38,7 @@ def main (args : List String) : IO UInt32 := do
   | ["smcode"] => SmCodeDrv.main
   | ["cache"] => CacheDrv.main
   | ["setup"] => SetupDrv.main
+  | ["exsmcode"] => ExSmCodeDrv.main
   | ["owner", a, b] => OwnerDrv.main a.toNat! b.toNat!
   | ["sched", a, b] => SchedDrv.main a.toNat! b.toNat!
   | _ => do
